@@ -254,7 +254,7 @@ Definition h_gov_set_fee_params (e : env) (s : state) (authority : addr) (fees :
 
 Definition h_gov_send_from_fee_pool (e : env) (s : state) (authority recipient : addr) (coins : list coin) : hres :=
   _ <- check (is_authority e authority) LUnauthorized ;;
-  s <- send_coins addr_feepool recipient coins s ;;
+  s <- send_coins_from_module_to_account addr_feepool recipient coins s ;;
   ret s REmpty.
 
 (* ------------------------------------------------------------------ *)
